@@ -6,6 +6,7 @@ package main
 // and Coq printing.
 
 import (
+	"bytes"
 	"encoding/binary"
 	"encoding/hex"
 	"fmt"
@@ -230,15 +231,24 @@ func tuple(args []abiArg) []byte {
 // cast=false: the contract's view (it is handed the uint64 values as they are).
 // cast=true: with the int64 cast the Go code applies to uint64 fields.
 func Encode(o *Obj, gid string, cast bool) []byte {
+	if cast {
+		return EncodeMask(o, gid, 7)
+	}
+	return EncodeMask(o, gid, 0)
+}
+
+// EncodeMask: bit 0 = nonce, bit 1 = time-out (oracle set: member powers), bit 2 = event nonce go through the int64 cast
+func EncodeMask(o *Obj, gid string, mask int) []byte {
 	g := static(strWord(gid))
+	c0, c1, c2 := mask&1 != 0, mask&2 != 0, mask&4 != 0
 	switch o.Kind {
 	case KSet: // makeCheckpoint: _fxBridgeId, "checkpoint", _oracleSetNonce, _oracles, _powers
 		var as, ps [][]byte
 		for _, m := range o.Members {
 			as = append(as, addrWord(m.Addr))
-			ps = append(ps, u64Word(m.Power, cast))
+			ps = append(ps, u64Word(m.Power, c1))
 		}
-		return tuple([]abiArg{g, static(strWord("checkpoint")), static(u64Word(o.Nonce, cast)), arrayOf(as), arrayOf(ps)})
+		return tuple([]abiArg{g, static(strWord("checkpoint")), static(u64Word(o.Nonce, c0)), arrayOf(as), arrayOf(ps)})
 	case KBatch: // submitBatch: id, "transactionBatch", _amounts, _destinations, _fees, _nonceArray[1], _tokenContract, _batchTimeout, _feeReceive
 		var am, ds, fs [][]byte
 		for _, t := range o.Txs {
@@ -247,7 +257,7 @@ func Encode(o *Obj, gid string, cast bool) []byte {
 			fs = append(fs, wordOf(t.Fee))
 		}
 		return tuple([]abiArg{g, static(strWord("transactionBatch")), arrayOf(am), arrayOf(ds), arrayOf(fs),
-			static(u64Word(o.Nonce, cast)), static(addrWord(o.Token)), static(u64Word(o.Timeout, cast)), static(addrWord(o.FeeRecv))})
+			static(u64Word(o.Nonce, c0)), static(addrWord(o.Token)), static(u64Word(o.Timeout, c1)), static(addrWord(o.FeeRecv))})
 	default: // bridgeCallSigHash: id, "bridgeCall", sender, refund, tokens, amounts, to, data, memo, nonce, timeout, eventNonce
 		var cs, am [][]byte
 		for _, t := range o.Tokens {
@@ -256,8 +266,19 @@ func Encode(o *Obj, gid string, cast bool) []byte {
 		}
 		return tuple([]abiArg{g, static(strWord("bridgeCall")), static(addrWord(o.Sender)), static(addrWord(o.Refund)),
 			arrayOf(cs), arrayOf(am), static(addrWord(o.To)), bytesOf(o.Data), bytesOf(o.Memo),
-			static(u64Word(o.Nonce, cast)), static(u64Word(o.Timeout, cast)), static(u64Word(o.EventNonce, cast))})
+			static(u64Word(o.Nonce, c0)), static(u64Word(o.Timeout, c1)), static(u64Word(o.EventNonce, c2))})
 	}
+}
+
+// hashedBytes names the bytes whose keccak is the real checkpoint cp: the contract layout with the int64
+// cast the current Go code applies or, should a tree drop the cast, without it.
+func hashedBytes(o *Obj, gid string, cp []byte) ([]byte, bool) {
+	for mask := 7; mask >= 0; mask-- {
+		if pre := EncodeMask(o, gid, mask); bytes.Equal(keccak(pre), cp) {
+			return pre, true
+		}
+	}
+	return Encode(o, gid, true), false
 }
 
 func (o *Obj) AllSmall() bool {
